@@ -64,8 +64,24 @@ func H_C15_Packets() {
 	// something queued for piggybacking
 	m.encodeBroadcastNotify(vPeerB, suspectMsg, &suspect{Incarnation: 1, Node: vPeerB, From: vSelf}, nil)
 	f.del.bcast = [][]byte{vBytes(2)}
-	api := vPick(9)
+	api := vPick(10)
 	switch api {
+	case 9:
+		// a whole failed probe of a suspect member: compound ping+suspect, indirect ping, TCP fallback ping
+		conf := m.config
+		conf.IndirectChecks = 1
+		conf.ProbeTimeout, conf.ProbeInterval = 100*time.Millisecond, 300*time.Millisecond
+		helper := f.vAddConcreteAlive(vPeerB, 3)
+		helper.PMax = 4
+		peer.State = []NodeStateType{StateAlive, StateSuspect}[vPick(2)]
+		tcp := &vConn{}
+		f.tr.conn = tcp
+		node := *peer
+		m.probeNode(&node)
+		vAdvance(time.Second)
+		if len(tcp.out) > 0 {
+			vStreamSealed(tcp.out, key, label, label, "c15.pkt.tcp-fallback")
+		}
 	case 0:
 		vAssert(m.rawSendMsgPacket(to, nil, append([]byte{byte(userMsg)}, vBytes(3)...)) == nil, "c15.pkt.raw")
 	case 1:
